@@ -1,14 +1,11 @@
 package t0097
 
-type G2 struct {
-	F0x0x0 *int32
-}
-
 type G1 struct {
-	F0x0 *G2
+	F2x0 *float32
 }
 
 type T struct {
-	F0 *G1
-	F1 *int64
+	F0 *int32
+	F1 int64
+	F2 *G1
 }
